@@ -563,6 +563,12 @@ impl Series1 {
     /// assert_eq!(resampled.y, vec![0.0, 0.5, 1.0, 1.5, 2.0]);
     /// ```
     pub fn resampled_n(&self, n: usize) -> Self {
+        // The extent of finite abscissae can overflow (e.g. -1e308..1e308): the step would be infinite and every
+        // new abscissa would be clamped to x_max, a silently collapsed series. Fail loudly instead.
+        assert!(
+            (self.x_max() - self.x_min()).is_finite(),
+            "resampled_n: the extent of the series overflows"
+        );
         let step_size = (self.x_max() - self.x_min()) / (n as f64 - 1.0);
         // TODO: Make this linear rather than using the binary search
         // The last point is the end of the domain itself: `x_min + (n - 1) * step_size` can round to just below it
